@@ -513,3 +513,47 @@ def umap(f, v):
     if isinstance(v, Union):
         return merge_many([(g, f(x)) for g, x in v.alts])
     return f(v)
+
+
+def flatten_value(v, limit=2000):
+    """all union-free instances of v: [(guard, value)] (cross product over nested unions)"""
+    def go(x):
+        if isinstance(x, Union):
+            out = []
+            for g, y in x.alts:
+                for g2, z in go(y):
+                    out.append((b_and(g, g2), z))
+            return out
+        if isinstance(x, tuple):
+            return prod(list(x), lambda fs: tuple(fs))
+        if isinstance(x, Adt):
+            return prod(list(x.fields), lambda fs: Adt(x.ty, x.variant, fs))
+        if isinstance(x, Struct):
+            return prod(list(x.fields), lambda fs: Struct(x.ty, x.names, fs))
+        if isinstance(x, VecV):
+            return prod(list(x.items), lambda fs: VecV(fs))
+        if isinstance(x, BoxV):
+            return [(g, BoxV(y, x.kind)) for g, y in go(x.v)]
+        if isinstance(x, ValRef):
+            return [(g, ValRef(y)) for g, y in go(x.v)]
+        return [(True, x)]
+
+    def prod(fields, mk):
+        acc = [(True, [])]
+        for f in fields:
+            alts = go(f)
+            if len(alts) == 1 and alts[0][0] is True:
+                for a in acc:
+                    a[1].append(alts[0][1])
+                continue
+            nxt = []
+            for g, done in acc:
+                for g2, y in alts:
+                    gg = b_and(g, g2)
+                    if gg is not False:
+                        nxt.append((gg, done + [y]))
+            acc = nxt
+            if len(acc) > limit:
+                raise ValueError("too many union instances")
+        return [(g, mk(fs)) for g, fs in acc]
+    return go(v)
